@@ -230,21 +230,20 @@ def check_readback(rep, repo):
     except Unknown as u:
         rep.inconclusive(rule, f.where, 'matching-string function is inside the interpreted fragment', got=str(u))
         return
-    # ' '.join(ACCUM(['0']*num_students; setidx[pair.student_index] str(pair.projectID) for pair in pair_assignments))
-    ok = False
-    got = show(rv)
-    if rv[0] == 'call' and rv[1] == A(C(' '), 'join') and len(rv[2]) == 1 and rv[2][0][0] == 'accum':
-        acc = rv[2][0]
-        pre, entries = acc[1], acc[2]
-        zero = ('list', (C('0'),))
-        n = A(lp.MODEL, 'num_students')
-        if pre in (BIN('Mult', zero, n), BIN('Mult', n, zero)) and len(entries) == 1:
-            op, idx, val, ch = entries[0]
-            b = ch[0][0]
-            ok = (op == 'setidx' and len(ch) == 1 and ch[0][1] == TRUE and b[3] == S(f.params[1])
-                  and idx in (A(b, 'student_index'), BIN('Sub', A(b, 'studentID'), C(1))) and val == CALL(S('str'), [A(b, 'projectID')]))
+    # canonical form: ' '.join(scatter of str(projectID) at student_index over ['0'] * num_students), whatever the construction
+    from ..canon import canon, equiv, replace, closed
+    from .c11 import ref_matching_array, PA
+    got_c = canon(rv)
+    while got_c[0] == 'fstr' and len(got_c[1]) == 1:
+        got_c = got_c[1][0]
+    want = canon(replace(('sjoin', C(' '), ref_matching_array()), PA, S(f.params[1])))
+    alt_b = ('bvar', -7, 'p', S(f.params[1]))
+    ok = equiv(got_c, want)
+    if not ok and closed(got_c) is not None:
+        rep.inconclusive(rule, f.where, 'the matching line is inside the aggregate algebra', got=closed(got_c))
+        return
     rep.check(ok, rule, f.where, "matching line: '0' per student, project ID written at the student's own index",
-              got=got[:200], want="' '.join(['0']*num_students with [pair.student_index] = str(pair.projectID))", construct='matching-string schema')
+              got=show(got_c)[:200], want="' '.join(['0']*num_students with [pair.student_index] = str(pair.projectID))", construct='matching-string schema')
 
 
 def truthy_of(g, vv):
@@ -256,4 +255,12 @@ def truthy_of(g, vv):
         return True
     if g[0] == 'cmp' and g[2] == vv and g[1] == 'Gt' and g[3] == C(0):
         return True
+    if g[0] == 'cmp' and g[2] == vv and g[1] == 'NotEq' and g[3] in (C(0), C(0.0)):
+        return True                           # a 0/1 variable: non-zero (None is excluded by a separate conjunct, or never occurs: x is in ST)
+    if g[0] == 'call' and g[1] == S('bool') and g[2] == (vv,):
+        return True
+    if g[0] == 'bool' and g[1] == 'and':
+        # conjunction of a None test and a truthiness / threshold test
+        rest = [c for c in g[2] if c not in (CMP('IsNot', vv, NONE), CMP('NotEq', vv, NONE), NOT(CMP('Is', vv, NONE)), NOT(CMP('Eq', vv, NONE)))]
+        return len(rest) == 1 and truthy_of(rest[0], vv)
     return False
